@@ -134,6 +134,13 @@ def run(tier, seed):
         "observed end to end (puppet log), not here",
         "every selected test is eventually started in an uncancelled run: scheduler liveness, C08 (finding F7)",
     ]
+    # end-to-end stage: real cargo-nextest runs over the scripted puppet workspace (real schedules, real
+    # process exit status), judged by this property's oracle (lib/e2e_general.py)
+    try:
+        import e2e_general
+        e2e_general.stage(chk, PROP, tier, seed)
+    except RuntimeError as ex:
+        chk.violation("broken-obligation", "e2e-build", dict(error=str(ex)[-3000:]), no_input=True)
     return chk.finish(
         gate, "make -C coq Properties/C02.vo && coqc gen/assump_C02.v (Print Assumptions)",
         ["Coq 8.16.1 kernel + vm_compute",
